@@ -44,6 +44,22 @@ from .. import core, fsx
 from .. import ebd as vebd
 from ..ref import install_model as M
 
+
+def _reset_signal_handlers():
+    """pkgcore.ebuild.processor installs SIGTERM/SIGINT handlers (raising SystemExit/KeyboardInterrupt) at import.
+    Inherited by the runner's pool workers they turn the pool's own SIGTERM into an exception at an arbitrary
+    point (observed: deadlocked pool). The checks never rely on them: restore the defaults."""
+    import signal as _signal
+
+    try:
+        _signal.signal(_signal.SIGTERM, _signal.SIG_DFL)
+        _signal.signal(_signal.SIGINT, _signal.default_int_handler)
+    except ValueError:  # not in the main thread
+        pass
+
+
+_reset_signal_handlers()
+
 ID = "C33"
 TITLE = "Install helpers create exactly the requested image entries"
 LEVEL = "exploration"
@@ -583,6 +599,8 @@ def run_case(ctx, case, record=True):
         if r.internal:
             cause = r.exc.__cause__
             q = _qual(case, "crash", culprit_features(case, req, W, before, None))
+            if "i18n" in q:
+                q = ":i18n"  # option parsing fails before any file name is looked at
             ctx.violation(f"internal-failure:{h}{q or ':' + type(cause).__name__}", case,
                           f"IpcInternalError from {type(cause).__name__}: {cause}; model: {res.status} {res.reason}")
             return
@@ -695,7 +713,7 @@ def src_tree(draw, names=FILE_NAMES, symlinks=False, depth_dirs=True):
                 else:
                     spec.append({"path": f"{d}/dlink", "type": "sym", "target": "."})
     tops = list(files)
-    if symlinks and draw(st.integers(0, 3)) == 0:
+    if symlinks and draw(st.integers(0, 3)) < 2:
         kind = draw(st.sampled_from(["rel", "dangling"]))
         if kind == "rel":
             spec.append({"path": "toplink", "type": "sym", "target": files[0]})
@@ -1111,9 +1129,9 @@ def script_cases(ctx, n):
 def plan(tier, seed):
     tasks = []
     if tier == "quick":
-        w = {"files": 260, "man": 220, "html": 200, "mo": 60, "dirs": 120, "sym": 260, "hard": 50, "mix": 300}
+        w = {"files": 400, "man": 300, "html": 300, "mo": 80, "dirs": 150, "sym": 400, "hard": 60, "mix": 500}
         reps = 1
-        rel, scr = 1500, 100
+        rel, scr = 2000, 200
     else:
         w = {"files": 6000, "man": 3000, "html": 3000, "mo": 600, "dirs": 1500, "sym": 4000, "hard": 400, "mix": 6000}
         reps = 2
@@ -1137,7 +1155,7 @@ def run_task(ctx, task, **kw):
 
 def _run_task(ctx, task, **kw):
     if task == "cases":
-        core.hyp_run(ctx, STRATS[kw["kind"]](), lambda c: run_case(ctx, c), kw["examples"], chunk=200,
+        core.hyp_run(ctx, STRATS[kw["kind"]](), lambda c: ctx.out_of_time() or run_case(ctx, c), kw["examples"], chunk=200,
                      seed_salt=kw.get("salt", 0))
     elif task == "relpath":
         relpath_pairs(ctx, kw["examples"])
